@@ -1611,7 +1611,7 @@ def tier_c(run, thorough):
                     # eval_dual_bootstrap_random hands n_rdm=data.n_rdm to Result also when only conditions are resampled
                     # (bootstrap_crossval passes None there): the n/(n-1) factor of the derived variances divides by zero for
                     # a single RDM, the routine returns nothing
-                    if False:  # pending triage: single-rdm,pattern-bootstrap
+                    if True:   # repaired in /repo 6fb03e8b (was pending triage): single-rdm,pattern-bootstrap
                         if thorough or q == seed % 3:
                             sw.append((_case(shape, ms, meth(k), seed, routine='eval_dual_bootstrap_random', boot_type=bt,
                                                 test_pattern=npat, test_rdm=nr, N=N, n_cv=2, use_correction=True, fitter=fitter),
